@@ -893,6 +893,44 @@ pub fn nesting(m: &Model, ctx: &mut Ctx, rule: &str) {
                 }
                 Err(e) => ctx.fail_closed(rule, &format!("[innermost type]: {}", e)),
             }
+            // (3) an enumeral under a governing type that *refers* to the ENUMERATED type (`Alias ::= Col  v Alias ::= green`): the
+            // constant is declared with the governing type and the enumeral is wrapped in it; under the ENUMERATED type itself
+            // it is the bare enumeral of that type
+            let hook3 = |_: &Evaluator, name: &str, a: &[Val]| -> Option<Result<Val, String>> {
+                let text = |v: Option<&Val>| v.map(|v| match v { Val::Str(s) | Val::Sym(s) => s.clone(), o => o.show() }).unwrap_or_default();
+                match name {
+                    ".to_rust_title_case" | ".to_rust_enum_identifier" => Some(Ok(Val::Sym(text(a.get(1))))),
+                    ".value_to_tokens" => Some(Ok(Val::Ctor("Ok".into(), vec![Val::Sym("Col::green".into())], Map::new()))),
+                    ".is_const_type" => Some(Ok(Val::Bool(true))),
+                    ".is_builtin_type" => Some(Ok(Val::Bool(false))),
+                    ".as_str" if a.len() == 1 => match &a[0] { Val::Ctor(_, p, _) => match p.first() { Some(Val::Ctor(_, _, f)) => f.get("identifier").cloned().map(Ok), _ => None }, _ => None },
+                    "assignment!" if a.len() == 3 => Some(Ok(Val::Sym(format!("{}({})", text(a.get(1)), text(a.get(2)))))),
+                    "call_template!" if a.len() >= 5 => Some(Ok(Val::Ctor("Ok".into(), vec![Val::Sym(format!("const V: {} = {}", text(a.get(3)), if text(a.get(1)) == "enum_value_template" { format!("{}::{}", text(a.get(3)), text(a.get(4))) } else { text(a.get(4)) }))], Map::new()))),
+                    _ => None,
+                }
+            };
+            let ev3 = Evaluator { consts: &consts, call_hook: &hook3, inline: None };
+            let enumeral = named("EnumeratedValue", vec![("enumerated", Val::Str("Col".into())), ("enumerable", Val::Str("green".into()))]);
+            for (governor, want) in [("Col", "const V: Col = Col::green"), ("Alias", "const V: Alias = Alias(Col::green)")] {
+                let key = format!("enumeral-under:{}", governor);
+                ctx.oblige(rule, &key, true);
+                let ty = Val::Ctor("ElsewhereDeclaredType".into(), vec![named("DeclarationElsewhere", vec![("identifier", Val::Str(governor.into())), ("module", Val::none()), ("parent", Val::none()), ("constraints", Val::List(vec![]))])], Map::new());
+                let mut env = Env::new();
+                env.insert("self".into(), Val::ctor("Rasn"));
+                env.insert("ty".into(), ty.clone());
+                env.insert("tld".into(), named("ToplevelValueDefinition", vec![("value", enumeral.clone()), ("name", Val::Str("v".into())), ("associated_type", ty)]));
+                let r = ev3.select_arm(&mt, &enumeral, &env).and_then(|(i, mut e2)| ev3.eval(&mt.arms[i].body, &mut e2));
+                match r {
+                    Ok(Val::Ctor(ok, p, _)) if ok == "Ok" => {
+                        let got = p.first().map(|v| match v { Val::Sym(s) | Val::Str(s) => s.clone(), o => o.show() }).unwrap_or_default();
+                        if got.replace(' ', "") != want.replace(' ', "") {
+                            ctx.violate(rule, "enumeral-under-alias", &f.file, crate::rules::util::span_line(&mt), &format!("`Col ::= ENUMERATED {{ red, green }}  Alias ::= Col  v {} ::= green` is declared `{}`; expected `{}` — the constant has the type it was assigned, and a reference to an ENUMERATED type is a delegate struct around it", governor, got, want));
+                        }
+                    }
+                    Ok(o) => ctx.fail_closed(rule, &format!("[{}]: {}", key, o.show().chars().take(120).collect::<String>())),
+                    Err(e) => ctx.fail_closed(rule, &format!("[{}]: {}", key, e)),
+                }
+            }
         }
     }
 }
